@@ -29,17 +29,18 @@ def script(h, fam):
     src = enc(h["src"]); out = []
     keys = h["keys"]
     def reads(sid):
-        if fam == "e":
+        if fam in "ep":
             return [line("e_meta", 0, "has"), line("e_meta", 0, "keys")] + [line("e_meta", 0, "val", sx(enc(k))) for k in keys]
         return [line("meta", fam, sid, "has"), line("meta", fam, sid, "keys")] + [line("meta", fam, sid, "val", sx(enc(k))) for k in keys]
     out.append(line("src", "m0", sx(src)))
-    if fam == "e": out.append(line("e_new", 0, "m0", 0, 0))
+    if fam in "ep": out.append(line("e_new", 0, "m0", 0, 0))
+    if fam == "p": out.append(line("e_parse", 0))            # the engine holds a complete parse tree before the first query / update
     out += reads("m0")
     for i, u in enumerate(h["upds"]):
-        if fam == "e": out.append(line("e_meta", 0, "upd", sx(enc(u["ks"])), sx(enc(u["us"]))))
+        if fam in "ep": out.append(line("e_meta", 0, "upd", sx(enc(u["ks"])), sx(enc(u["us"]))))
         else: out.append(line("meta", fam, "m%d" % i, "upd", sx(enc(u["ks"])), sx(enc(u["us"])), "m%d" % (i + 1)))
         out += reads("m%d" % (i + 1))
-    if fam == "e": out.append(line("e_free", 0))
+    if fam in "ep": out.append(line("e_free", 0))
     return out
 
 
@@ -101,17 +102,38 @@ def run(tier, seed):
         hs += g2.printed
     hists = uniq(h0 + h1 + hs)
     exe = build.build_harness("asan"); cli = build.build_cli()
-    fams = ["s", "d", "e"]
+    fams = ["s", "d", "e", "p"]
     segs = []; owners = []
     for i, h in enumerate(hists):
         for f in fams:
             if f != "e" and len(h["upds"]) > 0 and i % 2 and f == "d": continue
             segs.append(["seg\tmeta"] + script(h, f)); owners.append((i, f))
+    # the caller of a re-used engine owns the text: parse document A, put document B of the same length (other keys, other values) in its place, query
+    bylen = {}
+    for i, h in enumerate(hists):
+        if not h["upds"]: bylen.setdefault(len(enc(h["src"])), []).append(i)
+    swaps = []
+    for ln, ids in sorted(bylen.items()):
+        for a, b in zip(ids, ids[1:]):
+            if hists[a]["src"] != hists[b]["src"]: swaps.append((a, b))
+    swaps = swaps[:: max(1, len(swaps) // (300 if tier == "quick" else 3000))]
+    nplain = len(segs)
+    for a, b in swaps:
+        ha, hb = hists[a], hists[b]
+        def rd(h): return [line("e_meta", 0, "has"), line("e_meta", 0, "keys")] + [line("e_meta", 0, "val", sx(enc(k))) for k in h["keys"]]
+        segs.append(["seg\tmeta", line("src", "a", sx(enc(ha["src"]))), line("src", "b", sx(enc(hb["src"]))), line("e_new", 0, "a", 0, 0), line("e_parse", 0)] + rd(ha)
+                    + [line("e_settext", 0, "b")] + rd(hb) + [line("e_free", 0)])
+        owners.append((a, b))
     res = run_harness(exe, segs, timeout=30)
     trace = []; problems = []
-    for (i, f), seg, r in zip(owners, segs, res):
+    for k, ((i, f), seg, r) in enumerate(zip(owners, segs, res)):
         if r["status"] != "ok":
-            problems.append(("crash", (i, f), r)); continue
+            problems.append(("crash", (i, "w" if k >= nplain else f), r)); continue
+        if k >= nplain:
+            # two loads on one engine: the events up to the settext belong to document A, the rest to document B
+            evs = r["events"]; cut = [n for n, e in enumerate(evs) if e.get("e") == "eng" and e.get("op") == "settext"][0]
+            trace += to_trace(hists[i], evs[:cut], "w") + to_trace(hists[f], evs[cut:], "w")[1:]
+            continue
         trace += to_trace(hists[i], r["events"], f)
     wd = scratch("c11")
     try:
@@ -128,8 +150,8 @@ def run(tier, seed):
     chk.cov["evaluations"] = len(segs) + len(csel)
     chk.cov["distinct_nontrivial"] = len(hists)
     chk.cov["rule"] = ("histories = document (1-3 entries over 5 key shapes x 8 value shapes, YAML fence or not, 3 terminators, 3 bodies) + 0-3 updates (5 keys x 4 values); TLC BFS: all "
-                       "1-entry documents x 1 update and all <=2-entry documents (sampled in quick), TLC simulation for 3 entries x 3 updates; each replayed through the string, DString "
-                       "and reused-engine families; CLI -m/-e on a sample; after every call has/keys/value-of-every-key are read back")
+                       "1-entry documents x 1 update and all <=2-entry documents (sampled in quick), TLC simulation for 3 entries x 3 updates; each replayed through the string, DString, "
+                       "reused-engine and parsed-then-reused-engine families; CLI -m/-e on a sample; after every call has/keys/value-of-every-key are read back")
     chk.sample(dict(src=hists[0]["src"], upds=hists[0]["upds"])); chk.sample(dict(src=hs[0]["src"], upds=hs[0]["upds"]))
     seen = {}
     for seg, idx in rejected:
@@ -141,7 +163,8 @@ def run(tier, seed):
         if ev["e"] == "val" or ev["e"] == "keys" or ev["e"] == "has":
             if d["term"] == 3 and nup == 0: shape.append("eof-without-newline")
             if ev["e"] == "val" and ev.get("res", "") not in ("NULL",) and "&" in ev.get("res", "") and nup == 0: shape.append("ampersand")
-            if fam == "e" and nup >= 1: shape.append("engine-reuse-after-update")
+            if fam in "ep" and nup >= 1: shape.append("engine-reuse-after-update")
+            if fam == "w": shape.append("engine-text-replaced")
             if d["fence"] and nup >= 1: shape.append("yaml-fence-update")
         key = "%s:%s:%s" % (ev["e"], "upd%d" % min(nup, 2), "+".join(shape) or "plain")
         if key in seen: seen[key] += 1; continue
@@ -149,7 +172,7 @@ def run(tier, seed):
         chk.report(key, "answer refused by Metadata spec: event %s after %d update(s), family %s, source %r" % (json.dumps(ev), nup, fam, load["src"][:300]),
                    dict(source=load["src"], family=fam, events=seg, refused=idx))
     for kind, a, b in problems:
-        k, f = san_signature(b.get("san", "")); key = "%s:%s:%s:%s" % (b["status"], k, f, "engine-reuse" if a[1] == "e" else a[1])
+        k, f = san_signature(b.get("san", "")); key = "%s:%s:%s:%s" % (b["status"], k, f, "engine-reuse" if a[1] in "epw" else a[1])
         if key in seen: seen[key] += 1; continue
         seen[key] = 1
         chk.report(key, "process ended (%s) during history %s family %s :: %s" % (b["status"], json.dumps(dict(src=hists[a[0]]["src"], upds=hists[a[0]]["upds"]))[:400], a[1], b.get("san", "")[:300].replace("\n", " | ")),
